@@ -489,6 +489,13 @@ class SymInt:
       if d.lo != d.hi or d.lo <= 0: raise Inconclusive("int mode: division by a non-constant or non-positive value")
       k = d.lo
       return (SymInt(self.e / k, self.lo // k, self.hi // k), SymInt(self.e % k, 0, k - 1))
+    if self.lo >= 0 and d.lo > 0:
+      # non-negative operands: unsigned division on the narrowest sufficient width (cheap to bit-blast), zero-extended back
+      k = min(max(self.hi, d.hi).bit_length() + 1, W)
+      a = z3.Extract(k - 1, 0, self.e); b = z3.Extract(k - 1, 0, d.e)
+      q = z3.UDiv(a, b); r = z3.URem(a, b)
+      if k < W: q = z3.ZeroExt(W - k, q); r = z3.ZeroExt(W - k, r)
+      return (SymInt(z3.simplify(q), self.lo // d.hi, self.hi // d.lo), SymInt(z3.simplify(r), 0, min(d.hi - 1, self.hi)))
     a, b = self.e, d.e
     q = a / b                     # bvsdiv: truncates toward zero
     r = z3.SRem(a, b)             # sign follows dividend
@@ -766,26 +773,41 @@ class SymBytes:
     r = self.find(sub, start, end)
     if r < 0: raise ValueError("subsection not found")
     return r
+  def _at(self, i, sub):
+    if i + len(sub) > len(self.b): return False
+    return bool(SymBytes(self.b[i:i + len(sub)]) == SymBytes(sub))
   def count(self, sub):
-    n = 0
-    for x in self.b:
-      if x == sub[0] if not isinstance(sub, (int, SymInt)) else x == sub: n += 1
+    sub = [sub] if isinstance(sub, (int, SymInt)) else list(sub)
+    n = 0; i = 0
+    while i + len(sub) <= len(self.b):
+      if self._at(i, sub): n += 1; i += max(len(sub), 1)
+      else: i += 1
     return n
   def split(self, sep, maxsplit=-1):
-    assert len(sep) == 1
-    out = []; cur = []
-    for i, x in enumerate(self.b):
-      if (maxsplit < 0 or len(out) < maxsplit) and x == sep[0]:
-        out.append(SymBytes(cur)); cur = []
-      else: cur.append(x)
+    sep = list(sep)
+    if not sep: raise ValueError("empty separator")
+    out = []; cur = []; i = 0
+    while i < len(self.b):
+      if (maxsplit < 0 or len(out) < maxsplit) and self._at(i, sep):
+        out.append(SymBytes(cur)); cur = []; i += len(sep)
+      else: cur.append(self.b[i]); i += 1
     out.append(SymBytes(cur))
     return out
+  def rsplit(self, sep, maxsplit=-1):
+    sep = list(sep)
+    if maxsplit < 0: return self.split(sep)
+    out = []; end = len(self.b); i = end - len(sep)
+    while i >= 0 and len(out) < maxsplit:
+      if self._at(i, sep):
+        out.insert(0, SymBytes(self.b[i + len(sep):end])); end = i; i -= len(sep)
+      else: i -= 1
+    out.insert(0, SymBytes(self.b[:end]))
+    return out
   def replace(self, old, new):
-    assert len(old) == 1
-    out = []
-    for x in self.b:
-      if x == old[0]: out.extend(new)
-      else: out.append(x)
+    old = list(old); out = []; i = 0
+    while i < len(self.b):
+      if old and self._at(i, old): out.extend(new); i += len(old)
+      else: out.append(self.b[i]); i += 1
     return SymBytes(out)
   def rstrip(self, chars=None):
     chars = b' \t\n\r\x0b\x0c' if chars is None else chars
@@ -807,35 +829,202 @@ class SymBytes:
   def join(self, it): raise Inconclusive("SymBytes.join")
 
 
+import re as _re
+_FMT = _re.compile(r'%(?:\((\w+)\))?([-0 +#]*)(\d*)(?:\.(\d+))?([diuxXsrc%])')
+
+
+def _digits(v, base, upper=False):
+  """char codes of the numeral of a non-negative (Sym)Int, most significant first; forks on the digit count"""
+  if isinstance(v, SymBool): v = lift(v)
+  if not isinstance(v, SymInt):
+    t = ('%x' if base == 16 else '%d') % v
+    return [ord(c) for c in (t.upper() if upper else t)]
+  neg = []
+  if v.lo < 0:
+    if bool(v < 0): neg = [45]; v = -v
+  n = 1
+  while not bool(v < base ** n):
+    n += 1
+    if base ** n > LIM: raise Inconclusive("numeral too wide")
+  out = []
+  for i in range(n - 1, -1, -1):
+    d = (v // (base ** i)) % base if i else v % base
+    out.append(Ite(d < 10, d + 48, d + (55 if upper else 87)) if base > 10 else d + 48)
+  return neg + out
+
+
+def _chars(x):
+  """char-code list of a str / SymStr / bytes-like used as text"""
+  if isinstance(x, SymStr): return list(x._r().b)
+  if isinstance(x, str): return [ord(c) for c in x]
+  if isinstance(x, (bytes, bytearray)): return list(x)
+  if isinstance(x, SymBytes): return list(x.b)
+  if isinstance(x, (SymInt, SymBool, int)): return _digits(x, 10)
+  if x is None: return [ord(c) for c in 'None']
+  from . import sx
+  r = sx.str_(x)
+  return _chars(r) if isinstance(r, (str, SymStr)) else [ord(c) for c in str(r)]
+
+
+def _render(op):
+  k = op[0]
+  if k == '+': return _chars(op[1]) + _chars(op[2])
+  if k == 'join':
+    out = []
+    for n, it in enumerate(op[2]):
+      if n: out += _chars(op[1])
+      out += _chars(it)
+    return out
+  if k == 'str' or k == 'repr': return _chars(op[1])
+  if k == 'hex': return [48, 120] + _digits(op[1], 16)
+  if k == 'chars': return list(op[1])
+  if k == 'inet_ntoa':
+    out = []
+    for n, b in enumerate(op[1]):
+      if n: out.append(46)
+      out += _digits(b, 10)
+    return out
+  if k == 'f':
+    out = []
+    for p in op[1]:
+      if type(p) is tuple:
+        v, conv, spec = p
+        if spec: raise Inconclusive("f-string format spec on symbolic value")
+        out += _chars(v)
+      else: out += _chars(p)
+    return out
+  if k == '%':
+    fmt, args = op[1], op[2]
+    isb = isinstance(fmt, (bytes, SymBytes))
+    if isinstance(fmt, (SymStr, SymBytes)): raise Inconclusive("symbolic format string")
+    f = fmt.decode('latin-1') if isb else fmt
+    if not isinstance(args, tuple) and not isinstance(args, dict): args = (args,)
+    out = []; pos = 0; ai = 0
+    for m in _FMT.finditer(f):
+      out += [ord(c) for c in f[pos:m.start()]]; pos = m.end()
+      key, flags, width, prec, conv = m.groups()
+      if conv == '%': out.append(37); continue
+      if key is not None: a = args[key]
+      else: a = args[ai]; ai += 1
+      if conv in 'diu': cs = _digits(a, 10) if isinstance(a, (SymInt, SymBool, int)) else _chars(a)
+      elif conv in 'xX': cs = _digits(a, 16, conv == 'X')
+      elif conv == 'c': cs = [a] if isinstance(a, (int, SymInt)) else _chars(a)
+      else: cs = _chars(a)
+      w = int(width) if width else 0
+      if len(cs) < w:
+        if '-' in flags: cs = cs + [32] * (w - len(cs))
+        else: cs = [48 if '0' in flags and conv in 'diuxX' else 32] * (w - len(cs)) + cs
+      out += cs
+    out += [ord(c) for c in f[pos:]]
+    return out
+  raise Inconclusive("cannot render symbolic text of kind %r" % (k,))
+
+
 class SymStr:
-  """latin-1 text with symbolic characters (thin wrapper over SymBytes); produced by decode() and by
-  formatting symbolic values.  Only ==, len, encode, concatenation are modelled; anything else that needs
-  the characters raises Inconclusive."""
+  """latin-1 text whose characters may be symbolic.  Created lazily: formatting a symbolic value only records the
+  operation (log messages are never rendered); the first operation that needs the characters renders them into a
+  SymBytes of char codes, forking on the digit count of variable-width numerals."""
   __slots__ = ('sb', 'opaque')
   def __init__(self, sb=None, opaque=None):
     self.sb = sb; self.opaque = opaque
-  def encode(self, enc='utf-8', errors='strict'):
-    if self.sb is None: raise Inconclusive("encode() of formatted symbolic text")
+  def _r(self):
+    if self.sb is None:
+      self.sb = SymBytes(_render(self.opaque)); self.opaque = None
     return self.sb
-  def __len__(self):
-    if self.sb is None: raise Inconclusive("len() of formatted symbolic text")
-    return len(self.sb)
+  def _w(self, sb):
+    s = sb.simplified() if isinstance(sb, SymBytes) else sb
+    return s.decode('latin-1') if isinstance(s, bytes) else SymStr(sb)
+  @staticmethod
+  def _b(o):
+    if isinstance(o, SymStr): return o._r()
+    if isinstance(o, str): return o.encode('latin-1')
+    raise TypeError("must be str, not %s" % type(o).__name__)
+  def encode(self, enc='utf-8', errors='strict'): return self._r()
+  def __len__(self): return len(self._r())
+  def __iter__(self): return iter([self._w(SymBytes([c])) for c in self._r().b])
+  def __getitem__(self, i):
+    r = self._r()[i]
+    return self._w(r if isinstance(r, SymBytes) else SymBytes([r]))
   def __eq__(self, o):
-    if self.sb is None: raise Inconclusive("comparison of formatted symbolic text")
-    if isinstance(o, SymStr): return self.sb == o.sb
-    if isinstance(o, str):
-      try: return self.sb == o.encode('latin-1')
+    if isinstance(o, (str, SymStr)):
+      try: return self._r() == self._b(o)
       except UnicodeEncodeError: return False
     return False
   def __ne__(self, o): return Not(self.__eq__(o))
-  def __hash__(self):
-    if self.sb is None: raise Inconclusive("hash of formatted symbolic text")
-    return hash(self.sb.concretize().decode('latin-1'))
-  def __add__(self, o): return SymStr(None, ('+', self, o)) if self.sb is None or not isinstance(o, SymStr) or o.sb is None else SymStr(self.sb + o.sb)
-  def __radd__(self, o): return SymStr(None, ('+', o, self))
+  def __lt__(self, o): return self._r() < self._b(o)
+  def __le__(self, o): return self._r() <= self._b(o)
+  def __gt__(self, o): return self._r() > self._b(o)
+  def __ge__(self, o): return self._r() >= self._b(o)
+  def __hash__(self): return hash(self._r().concretize().decode('latin-1'))
+  def __add__(self, o):
+    if not isinstance(o, (str, SymStr)): return NotImplemented
+    return SymStr(None, ('+', self, o))
+  def __radd__(self, o):
+    if not isinstance(o, (str, SymStr)): return NotImplemented
+    return SymStr(None, ('+', o, self))
   def __mod__(self, o): return SymStr(None, ('%', self, o))
   def __str__(self): return "<symbolic text>"
   __repr__ = __str__
-  def __bool__(self):
-    if self.sb is None: return True
-    return len(self.sb) > 0
+  def __bool__(self): return len(self._r()) > 0
+  def __contains__(self, x): return self._r().find(self._b(x)) >= 0
+  def find(self, x, *a): return self._r().find(self._b(x), *a)
+  def index(self, x, *a): return self._r().index(self._b(x), *a)
+  def count(self, x): return self._r().count(self._b(x))
+  def startswith(self, x, *a): return self._r().startswith(self._b(x), *a)
+  def endswith(self, x): return self._r().endswith(self._b(x))
+  def split(self, sep=None, maxsplit=-1):
+    if sep is None: raise Inconclusive("whitespace split of symbolic text")
+    return [self._w(p) for p in self._r().split(self._b(sep), maxsplit)]
+  def rsplit(self, sep=None, maxsplit=-1):
+    if sep is None: raise Inconclusive("whitespace split of symbolic text")
+    return [self._w(p) for p in self._r().rsplit(self._b(sep), maxsplit)]
+  def replace(self, a, b): return self._w(self._r().replace(self._b(a), self._b(b)))
+  def strip(self, c=None): return self._w(self._r().strip(None if c is None else self._b(c)))
+  def rstrip(self, c=None): return self._w(self._r().rstrip(None if c is None else self._b(c)))
+  def lower(self):
+    return self._w(SymBytes([Ite(And(c >= 65, c <= 90), c + 32, c) for c in self._r().b]))
+  def upper(self):
+    return self._w(SymBytes([Ite(And(c >= 97, c <= 122), c - 32, c) for c in self._r().b]))
+  def isdigit(self):
+    b = self._r().b
+    return len(b) > 0 and bool(And(*[And(c >= 48, c <= 57) for c in b]))
+  def join(self, it):
+    return SymStr(None, ('join', self, list(it)))
+  def ljust(self, n, fill=' '): return self._w(self._r().ljust(n, fill.encode('latin-1')))
+  def format(self, *a, **k): raise Inconclusive("format() on symbolic text")
+
+
+def parse_int(s, base=10):
+  """int(text, base) over symbolic characters (no whitespace / underscores / prefixes); ValueError paths fork"""
+  cs = _chars(s)
+  sign = 1
+  if cs and isinstance(cs[0], int) and cs[0] in (43, 45):
+    sign = -1 if cs[0] == 45 else 1; cs = cs[1:]
+  elif cs and isinstance(cs[0], SymInt):
+    if bool(cs[0] == 45): sign = -1; cs = cs[1:]
+    elif bool(cs[0] == 43): cs = cs[1:]
+  if not cs: raise ValueError("invalid literal for int()")
+  if base == 0: raise Inconclusive("int(text, 0) on symbolic text")
+  v = 0
+  ds = []; valid = []
+  for c in cs:
+    if isinstance(c, int):
+      try: d = int(chr(c), 36)
+      except ValueError: raise ValueError("invalid literal for int()")
+      if d >= base: raise ValueError("invalid literal for int()")
+    else:
+      # fork-free digit value; validity of the whole numeral is decided once below
+      isd = And(c >= 48, c <= min(57, 47 + base))
+      if base > 10:
+        isl = And(c >= 97, c < 97 + base - 10); isu = And(c >= 65, c < 65 + base - 10)
+        d = Ite(isd, c - 48, Ite(isl, c - 87, c - 55))
+        valid.append(Or(isd, isl, isu))
+      else:
+        d = c - 48
+        valid.append(isd)
+      d = SymInt(d.e, 0, base - 1)
+    ds.append(d)
+  if valid and not bool(And(*valid)): raise ValueError("invalid literal for int()")
+  for d in ds:
+    v = v * base + d
+  return v * sign
